@@ -13,7 +13,7 @@ Accepted (non-gRPC) programs are handed to generator "gen" + `go build` (propert
 evidence under C01-style keys, not judged here).
 Every failing case is minimised on the real code before it is keyed."""
 import json, os, shutil, subprocess, threading, concurrent.futures as cf
-from vlib import core, c12_prog as cp
+from vlib import core, c12_prog as cp, c12_seeds
 
 LEVEL = "model_checking"
 
@@ -33,6 +33,10 @@ DEVS = {
     "crash.extend_collection": (["ResultType", "Extend"], 2, 0, "small"),
     "crash.error_response_headers_undeclared_error": (["Service", "HTTP", "Response", "Header"], 4, 0, "tiny"),
     "crash.grpc_message_empty_dsl": (["Service", "Message"], 2, 1, "tiny"),
+    "crash.grpc_message_attr_not_in_payload": (["Service", "Message", "Attribute"], 3, 1, "min"),
+    "crash.body_empty_dsl": (["Service", "Body"], 2, 1, "min"),
+    "accept.body_attribute": (["Service", "Method", "HTTP", "Body", "Attribute"], 5, 0, "min", "simulate"),
+    "accept.response_tag": (["Service", "Method", "HTTP", "Response", "Tag"], 5, 0, "min", "simulate"),
     "accept.request_mapping": (["Service", "Method", "HTTP", "Param"], 4, 0, "tiny"),
     "accept.response_mapping": (["Service", "Method", "HTTP", "Response", "Header"], 5, 0, "tiny", "simulate"),
     "accept.grpc_mapping": (["Service", "Method", "GRPC", "Message", "Attribute"], 5, 0, "tiny"),
@@ -261,8 +265,11 @@ def handoff(ctx, host, lines, quick):
             later[id(pick[i])] = "error"
             res["failures"].append({"key": "C01/gen-%s/%s" % (r.get("gen"), cp.structure_key(progs[i]["nodes"])[:200]), "program": cp.render(progs[i]["nodes"]).splitlines(),
                                     "diagnostic": (r.get("genInfo") or "")[:600]})
+    results = [build(i) for i in todo[:1]]       # the first build settles go.mod / go.sum of the scratch module
     with cf.ThreadPoolExecutor(max_workers=8) as ex:
-        for i, rc, text in ex.map(build, todo):
+        results += list(ex.map(build, todo[1:]))
+    if True:
+        for i, rc, text in results:
             if rc == 0:
                 res["build_ok"] += 1
                 later[id(pick[i])] = "ok"
@@ -369,6 +376,12 @@ def run(ctx):
         fg = ex.submit(generate, ctx, quick)
         vectors = fg.result()
         fm.result()
+    # the seed corpus is read by TLC like every other program
+    seeds = c12_seeds.programs(len(vectors) + 1)
+    scls = classify(ctx, seeds, label="classify-seeds")
+    for sd in seeds:
+        vectors.append(dict(scls[sd["id"]], nodes=sd["nodes"], seed=sd["seed"]))
+    ctx.cov["seed_programs"] = len(seeds)
     programs = [{"id": i + 1, "nodes": v["nodes"]} for i, v in enumerate(vectors)]
     host.check_tokens(programs)
     nmut = int(os.environ.get("VERIF_C12_MUTANTS") or (1500 if quick else 12000))
@@ -396,6 +409,7 @@ def run(ctx):
     ctx.cov["outcomes"] = outcomes
     ctx.cov["programs"] = {"tlc": len(programs), "mutants": len(mut), "with_dangling_reference": sum(1 for l in lines if l["dangling"]),
                            "with_misplaced_call": sum(1 for l in lines if l["misplaced"]), "max_calls": max(len(l["prog"]["nodes"]) for l in lines)}
+    ctx.cov["seed_outcomes"] = {vectors[l["i"]]["seed"] + "#%d" % l["prog"]["id"]: l["res"]["outcome"] for l in lines if l["origin"] == "tlc" and "seed" in vectors[l["i"]]}
     function_coverage(ctx, host, lines)
     later = handoff(ctx, host, lines, quick)
     # (J) the log of everything that was executed, judged by TLC
